@@ -45,6 +45,7 @@ SIG_Q = R("sig_q", "sig_q.cfg", rounds=3, expect_ops=["add_signature", "sign", "
 REMOVE_Q = R("remove_q", "remove_q.cfg", rounds=2, expect_ops=["remove_assertion", "replace_assertion", "replace_subject", "assertion_with_digest"])
 REELIDE_Q = R("reelide_q", "reelide_q.cfg", rounds=2, expect_ops=["elide", "elide_set", "unelide"])
 SSKR_MIX3_Q = R("sskr_mix3_q", "sskr_mix3_q.cfg", rounds=2, expect_ops=["sskr_split_pick", "sskr_pick_more", "sskr_join"], expect_out=["sskr_join:ok", "sskr_join:err"])
+UNELIDE_Q = R("unelide_q", "unelide_q.cfg", rounds=2, expect_ops=["unelide", "elide", "elide_set"], expect_out=["unelide:ok", "unelide:err"])
 SIG_Q2 = R("sig_q2", "sig_q2.cfg", rounds=2, expect_ops=["add_signature", "sign", "obs_verify", "elide_set"])
 SIG_Q3 = R("sig_q3", "sig_q3.cfg", rounds=2, expect_ops=["add_signature", "sign", "obs_verify"])
 SIG_T = R("sig_t", "sig_t.cfg", rounds=2, timeout=3000, expect_ops=["add_signature", "sign", "forge_signed", "obs_verify", "elide_set", "uncompress", "encode_decode"])
@@ -96,8 +97,8 @@ FORGE_Q = R("forge_q", "forge_q.cfg", expect_ops=["forge_encrypted", "forge_comp
 PLAN = {
     "C01": dict(
         rule="every transition TLC explores in the bounded machine (all call sequences up to the depth bound over the listed action families, 2 registers, atoms a1,a2 + known value 1, plus every clear shape of <= 5 elements as input to the obscuring calls) is executed against the real library in several concretisation rounds (atoms -> typed values of every leaf CBOR type); the digest of the result and of every element of it must equal SHA-256 evaluated from the specification's digest term. non-trivial = distinct (call, expected result) pairs whose result has >= 2 elements or is an error",
-        quick=[CORE_ALL3, OBS_Q, REMOVE_Q, TRACE_WALK, TRACE_ORDER],
-        thorough=[CORE_ALL3, CORE_T, OBS_Q, OBS_Q2, REMOVE_Q, TRACE_WALK_T, TRACE_ORDER],
+        quick=[CORE_ALL3, OBS_Q, REMOVE_Q, FORGE_Q, TRACE_WALK, TRACE_ORDER],
+        thorough=[CORE_ALL3, CORE_T, OBS_Q, OBS_Q2, REMOVE_Q, FORGE_Q, TRACE_WALK_T, TRACE_ORDER],
     ),
     "C02": dict(
         rule="every shape of <= 5 elements x every target subset (<= 3 digests incl. an absent one) x both modes x {elide, encrypt, compress} and the whole-envelope calls, then a second obscuring call; the decoder guard on which the property rests (decode_q: a non-canonical node - repeated or unsorted assertions - never becomes an envelope); (also on nodes: reelide_q = progressive redaction of nodes, node-subject nodes, decorated assertions) on the result; digests at every surviving position compared with the specification's terms",
@@ -106,8 +107,8 @@ PLAN = {
     ),
     "C03": dict(
         rule="as C02; the expected tree says exactly which positions are hidden, the serialized bytes must equal the evaluated wire term (no residue), unelide with every register pair",
-        quick=[OBS_Q, OBS_Q2, REELIDE_Q, OBS_Q3],
-        thorough=[OBS_Q, OBS_Q2, REELIDE_Q, OBS_Q3, OBSCURE_T, DEEP_S_T, DEEP_X_T],
+        quick=[OBS_Q, OBS_Q2, REELIDE_Q, OBS_Q3, UNELIDE_Q],
+        thorough=[OBS_Q, OBS_Q2, REELIDE_Q, OBS_Q3, UNELIDE_Q, OBSCURE_T, DEEP_S_T, DEEP_X_T],
     ),
     "C04": dict(
         rule="all mutating action families from the empty register file, depth <= 3 (all families) and <= 4 (construct/assertions/wrap); serialized bytes of every result must equal the evaluated wire term whose node arrays are sorted by the real digest bytes",
